@@ -158,9 +158,9 @@ impl<'a> TypeShareVisitor<'a> {
                 .parsed_data
                 .import_types
                 .iter()
-                .find(|imp| imp.type_name == name)
-                .into_iter()
-                .next()
+                .filter(|imp| imp.type_name == name)
+                // the set has no order of its own: the same import must win in every run
+                .min_by_key(|imp| &imp.base_crate)
                 .cloned();
 
             // if found.is_none() {
